@@ -674,55 +674,101 @@ func (c *Ctx) c37Plumbing(p *c34Parser) {
 	}
 	info := pkS.TypesInfo
 	parseObj := p.info.Defs[p.fd.Name]
-	// parse: single return of parser.Parse(param, 0)
-	okP, why := false, "no `return parser.Parse(<parameter>, 0)`"
-	var nret int
-	ast.Inspect(fdP.Body, func(x ast.Node) bool {
-		rs, ok := x.(*ast.ReturnStmt)
-		if !ok {
-			return true
-		}
-		nret++
-		if len(rs.Results) != 1 {
-			return true
-		}
-		call, ok := unparen(rs.Results[0]).(*ast.CallExpr)
-		if !ok || len(call.Args) != 2 {
-			return true
-		}
+	// parse: `return parser.Parse(param, 0)`, or the same through its named results
+	// (`pt, hl = parser.Parse(param, 0); return`)
+	isParserParse := func(fd *ast.FuncDecl, call *ast.CallExpr) (bool, string) {
 		co := callee(info, call)
-		if co == nil || co.Pkg() == nil || parseObj == nil || co.Pkg().Path() != parseObj.Pkg().Path() || co.Name() != parseObj.Name() {
-			return true
+		if co == nil || co.Pkg() == nil || parseObj == nil || co.Pkg().Path() != parseObj.Pkg().Path() || co.Name() != parseObj.Name() || len(call.Args) != 2 {
+			return false, ""
 		}
 		id, ok := unparen(call.Args[0]).(*ast.Ident)
-		if !ok || !c37IsParam(info, fdP, id) {
-			why = "first argument is not the unmodified parameter"
-			return true
+		if !ok || !c37IsParam(info, fd, id) {
+			return false, "first argument is not the unmodified parameter"
 		}
 		if k, ok := constInt(info, call.Args[1]); !ok || k != 0 {
-			why = "pos argument is not the constant 0: with pos≠0 Parse returns early and the highlighted string is cut short"
+			return false, "pos argument is not the constant 0: with pos≠0 Parse returns early and the highlighted string is cut short"
+		}
+		return true, ""
+	}
+	okP, why := false, "no `return parser.Parse(<parameter>, 0)`"
+	var results []types.Object
+	if fdP.Type.Results != nil {
+		for _, f := range fdP.Type.Results.List {
+			for _, nm := range f.Names {
+				results = append(results, info.Defs[nm])
+			}
+		}
+	}
+	returnsResults := func(rs *ast.ReturnStmt) bool {
+		if len(results) != 2 {
+			return false
+		}
+		if len(rs.Results) == 0 {
 			return true
 		}
-		okP = true
+		if len(rs.Results) != 2 {
+			return false
+		}
+		for k, r := range rs.Results {
+			id, ok := unparen(r).(*ast.Ident)
+			if !ok || info.ObjectOf(id) != results[k] {
+				return false
+			}
+		}
 		return true
-	})
-	if nret != 1 || len(fdP.Body.List) != 1 {
-		okP, why = false, "shell.parse is no longer a single return statement"
+	}
+	switch len(fdP.Body.List) {
+	case 1:
+		if rs, ok := fdP.Body.List[0].(*ast.ReturnStmt); ok && len(rs.Results) == 1 {
+			if call, ok := unparen(rs.Results[0]).(*ast.CallExpr); ok {
+				if good, w := isParserParse(fdP, call); good {
+					okP = true
+				} else if w != "" {
+					why = w
+				}
+			}
+		}
+	case 2:
+		as, ok1 := fdP.Body.List[0].(*ast.AssignStmt)
+		rs, ok2 := fdP.Body.List[1].(*ast.ReturnStmt)
+		if ok1 && ok2 && as.Tok == token.ASSIGN && len(as.Lhs) == 2 && len(as.Rhs) == 1 && len(results) == 2 && returnsResults(rs) {
+			inOrder := true
+			for k, l := range as.Lhs {
+				id, ok := unparen(l).(*ast.Ident)
+				if !ok || info.ObjectOf(id) != results[k] {
+					inOrder = false
+				}
+			}
+			if call, ok := unparen(as.Rhs[0]).(*ast.CallExpr); ok && inOrder {
+				if good, w := isParserParse(fdP, call); good {
+					okP = true
+				} else if w != "" {
+					why = w
+				}
+			}
+		}
+	default:
+		why = "shell.parse is no longer a single return of parser.Parse (directly or through its named results)"
 	}
 	c.Check(okP, rule, "shell.parse:call", fdP.Pos(), "shell.parse hands its argument to parser.Parse with pos=0%s", c37Why(okP, why))
-	// syntaxHighlight: `_, h := parse(r); return h`
+	// syntaxHighlight: `_, h := parse(r); return h` (or parser.Parse(r, 0) called directly)
 	okH, whyH := false, "not `_, h := parse(<parameter>); return h`"
 	if len(fdH.Body.List) == 2 {
 		as, ok1 := fdH.Body.List[0].(*ast.AssignStmt)
 		rs, ok2 := fdH.Body.List[1].(*ast.ReturnStmt)
 		if ok1 && ok2 && len(as.Lhs) == 2 && len(as.Rhs) == 1 && len(rs.Results) == 1 {
 			call, ok := unparen(as.Rhs[0]).(*ast.CallExpr)
-			if ok && len(call.Args) == 1 {
+			if ok && len(call.Args) >= 1 {
 				co := callee(info, call)
 				id, isId := unparen(call.Args[0]).(*ast.Ident)
 				h, isH := as.Lhs[1].(*ast.Ident)
 				r, isR := unparen(rs.Results[0]).(*ast.Ident)
-				if co != nil && co == info.Defs[fdP.Name] && isId && c37IsParam(info, fdH, id) && isH && isR && info.ObjectOf(h) == info.ObjectOf(r) && h.Name != "_" {
+				viaParse := co != nil && co == info.Defs[fdP.Name] && len(call.Args) == 1
+				direct, w := isParserParse(fdH, call)
+				if w != "" {
+					whyH = w
+				}
+				if (viaParse || direct) && isId && c37IsParam(info, fdH, id) && isH && isR && info.ObjectOf(h) == info.ObjectOf(r) && h.Name != "_" {
 					okH = true
 				}
 			}
